@@ -80,13 +80,30 @@ def internal_identifier(msg):
 
 
 def atoms_in_order(msg, atoms):
+    """Do the atoms occur in this order in the message?  Quoting style and surrounding
+    words are free; alphanumeric atoms must stand alone as words (so `int` is not found
+    inside `integer` or `print`)."""
     idx = 0
     for a in atoms:
-        j = msg.find(a, idx)
-        if j < 0:
-            return False
-        idx = j + len(a)
+        a = str(a)
+        if a and (a[0].isalnum() or a[0] == "_") and (a[-1].isalnum() or a[-1] == "_"):
+            m = re.compile(r"(?<![A-Za-z0-9_])" + re.escape(a) + r"(?![A-Za-z0-9_])").search(msg, idx)
+            if not m:
+                return False
+            idx = m.end()
+        else:
+            j = msg.find(a, idx)
+            if j < 0:
+                return False
+            idx = j + len(a)
     return True
+
+
+def atoms_present(msg, atoms, ordered):
+    """Message names all atoms; in the given order only where a property demands the order."""
+    if ordered:
+        return atoms_in_order(msg, atoms)
+    return all(atoms_in_order(msg, [a]) for a in atoms)
 
 
 def outcome_mismatch(obs, res):
@@ -129,13 +146,28 @@ CONTROL = 'print("control")\n'
 
 def confirm_hang(src, binary=None, name="t.sd"):
     """Re-run a timed-out case alone, twice, each next to a trivial control script.
-    True only if the case never finishes while the control does."""
+    True only if the case never finishes while the control does.  After a few hangs have
+    been confirmed in this run, further time-outs are not re-confirmed (returns None =
+    inconclusive) so that a tree that hangs everywhere does not stall the harness."""
+    import os
     binary = binary or core.BIN_VERIF
+    marker = os.path.join(core.WORK, "hangs-%d" % os.getppid())
+    try:
+        confirmed = len(open(marker).read())
+    except OSError:
+        confirmed = 0
+    if confirmed >= 3:
+        return None
     for _ in range(2):
-        o = core.run_one({"src": src, "bin": binary, "timeout": 60.0, "name": name})
+        o = core.run_one({"src": src, "bin": binary, "timeout": 40.0, "name": name})
         c = core.run_one({"src": CONTROL, "bin": binary, "timeout": 10.0})
         if not o.timeout:
             return False
         if c.timeout or c.code != 0:
             return False
+    try:
+        with open(marker, "a") as f:
+            f.write("x")
+    except OSError:
+        pass
     return True
